@@ -272,11 +272,19 @@ def check_C11(ctx):
             for j, form in enumerate(forms):
                 src = (j + N + L) % 3
                 c = dict(files=f, **form, **NOCOLOR)
+                c["_expect_fail"] = (L >= N) and form["cmd"] not in ("quantity", "csv-log", "print")     # these three never resolve the book
                 if src == 0: c["f_depth"] = N
                 elif src == 1: c["e_depth"] = N
                 else: c["files"] = dict(f, **{"cfg.ini": {"cfg": {"depth": N}}}); c["f_config"] = "cfg.ini"
                 cases.append(c)
+    expects = [c.pop("_expect_fail", None) for c in cases]
     ires = cli_diff(ctx, cases, project=ws_norm, tag="C11:")
+    for c, e, i in zip(cases, expects, ires):
+        if e is None: continue
+        if e and i["status"] == "ok":
+            ctx.violation("C11:command-accepts-chain-at-limit:" + c["cmd"], "%s succeeds although the book has a chain as long as the configured limit" % c["cmd"], dict(kind="cli", case=c, impl=i))
+        if not e and i["status"].startswith("fail"):
+            ctx.violation("C11:command-rejects-legitimate-nesting:" + c["cmd"], "%s fails (%s) although every chain of the book is shorter than the configured limit" % (c["cmd"], i["status"][:40]), dict(kind="cli", case=c, impl=i))
     return dict(rule="chains of N-2..N+2 references for N in 1..12 (shuffled declaration order), cycles of length 1..4 reached at depth 0, 1, N-1, N, random DAGs with "
                 "and without cycles; both entry points, %d fresh maps each; the success/failure outcome (and the resolved book) compared with the extracted Coq model "
                 "under 3 visiting orders; --maxdepth / HR_MAXDEPTH / config MaxDepth on the real binary for every command that resolves the book (register forms, balance, summary, report totals / unresolved / element-total, csv database-resolved) and three that do not; distinct by (book bytes, N)" % ctx.scale(16, 64))
